@@ -30,6 +30,15 @@ def candidates(pkg):
             for pat, rep in OPS:
                 for m in re.finditer(pat, code):
                     out.append((os.path.join(pkg, fn), ln, m.start(), m.end(), rep))
+            # statement deletion: a call or an assignment on a line of its own
+            st = code.strip()
+            if re.match(r'^[A-Za-z_][\w\.\[\]\*\+\-: ]*(=|\+=|-=|\|=|&=|\+\+|--)', st) or re.match(r'^[A-Za-z_][\w\.]*\(.*\)$', st):
+                if not st.endswith('{') and ':=' not in st:
+                    out.append((os.path.join(pkg, fn), ln, 0, len(line), '// deleted: ' + st))
+            # condition negation: if c { -> if !(c) {
+            m = re.match(r'^(\s*if )([^;{]+)( \{)$', code)
+            if m:
+                out.append((os.path.join(pkg, fn), ln, 0, len(line), m.group(1) + '!(' + m.group(2) + ')' + m.group(3)))
     return out
 
 def run(cmd, cwd, timeout):
